@@ -75,8 +75,46 @@ func vCutFieldBytes() {
 // C10: UnpackNegativeVartime.  accept => genuine root of (y^2-1)/(d y^2+1) with the parity opposite to bit 255
 // (either parity when x == 0), y from the low 255 bits, Z = 1, T = XY; reject => the candidate passes neither
 // root test.
+// the multiplication by sqrt(-1) happens on exactly one decoder path: after the second root test.  At that point
+// the decoder's local t holds x^2 den + num, and the path was taken because the canonical bytes of t compared
+// equal to zero; the comparison must amount to t == 0 (a truncated or partial comparison accepts non-roots)
+func vc_feMulDecoder(out, a, b *curve25519.Bignum25519) {
+	if b == &sqrtNeg1 {
+		vSecondRootTaken = true
+		t := vCallerLocal("t").(*curve25519.Bignum25519)
+		// stated for an arbitrary field value in place of x^2 den + num (generalisation): what matters is the
+		// comparison the path went through, not how the value was computed
+		saved := vGetZ(t)
+		vGeneralize(t, 1, "gen_t")
+		vAssert(vCong(vFE(t), vZi(0)), "the second root is taken only when x^2 den + num == 0")
+		vGeneralizeOff()
+		vPut(t, saved)
+	}
+	vc_feMul(out, a, b)
+}
+
+var vSecondRootTaken bool
+
+// the serialisation for the parity step is reached either through the second-root block or directly after the
+// first root test; in the latter case that test must amount to x^2 den - num == 0
+func vc_feContractDecoder(out []byte, in *curve25519.Bignum25519) {
+	root := vCallerLocal("root").(*curve25519.Bignum25519)
+	t := vCallerLocal("t").(*curve25519.Bignum25519)
+	if in != root && in != t && !vSecondRootTaken {
+		saved := vGetZ(root)
+		vGeneralize(root, 1, "gen_root")
+		vAssert(vCong(vFE(root), vZi(0)), "the first root is taken only when x^2 den - num == 0")
+		vGeneralizeOff()
+		vPut(root, saved)
+	}
+	vc_feContract(out, in)
+}
+
 func vUnpackCase(negative bool) {
 	vCutFieldBytes()
+	vSecondRootTaken = false
+	vReplace(curve25519.Mul, vc_feMulDecoder)
+	vReplace(curve25519.Contract, vc_feContractDecoder)
 	vNoMerge(true) // each decoder path (first root, second root, reject, both parities) is explored on its own
 	p := vBytes("enc", 32)
 	var r Ge25519
